@@ -7,25 +7,29 @@ use jaq_json::Val;
 use serde_json::json;
 use vcore::gen::{self, Cfg};
 use vcore::gprog;
-use vcore::jq::{self, Out};
+use vcore::jq::{self, OutM};
 use vcore::manual;
 use vcore::mval::{eq_m, MVal};
 use vcore::refrun::{self, ROut};
 use vcore::runner::{fnv_str, CaseFail, CaseOk, CaseResult, Report};
 use vcore::Src;
 
+pub const SIG_SINGLE_INTERP: &str = "single-interpolation-in-path-position";
+/// (signature, program, input) demonstrating each finding listed in known_findings.txt
+pub const KNOWN_DEMOS: &[(&str, &str, &str)] = &[(SIG_SINGLE_INTERP, "[path(\"\\(.[]?)\")]", "null")];
 pub const LIMIT: usize = 64;
 pub const FUEL: u64 = 150_000;
+pub const JAQ_TIMEOUT_MS: u64 = 10_000;
 
 /// How two output streams differ, if they do.  `lenient_order` accepts
 /// objects that are `==` but differ in key order (documented: a deleting
 /// update may reorder the remaining entries).
-pub fn compare(j: &[Out], r: &[ROut], lenient_order: bool) -> Result<bool, String> {
+pub fn compare(j: &[OutM], r: &[ROut], lenient_order: bool) -> Result<bool, String> {
     let mut lenient_used = false;
     for (i, (a, b)) in j.iter().zip(r.iter()).enumerate() {
         let same = match (a, b) {
-            (Out::Val(x), ROut::Val(y)) | (Out::Err(x), ROut::Err(y)) => {
-                let (mx, my) = (MVal::from_val(x), MVal::from_val(y));
+            (OutM::Val(mx), ROut::Val(y)) | (OutM::Err(mx), ROut::Err(y)) => {
+                let my = MVal::from_val(y);
                 if mx.same(&my) {
                     true
                 } else if lenient_order && !mx.contains_nan() && !my.contains_nan() && eq_m(&mx, &my) && format!("{mx:?}").len() == format!("{my:?}").len() {
@@ -35,10 +39,19 @@ pub fn compare(j: &[Out], r: &[ROut], lenient_order: bool) -> Result<bool, Strin
                     false
                 }
             }
-            (Out::Halt(x), ROut::Halt(y)) => x == y,
+            (OutM::Halt(x), ROut::Halt(y)) => x == y,
             _ => false,
         };
         if !same {
+            // both evaluators refuse a value-constructing expression in path/update position; which of
+            // the sub-expressions is blamed (and with which message) is not specified by the manual
+            if let (OutM::Err(MVal::TStr(x)), ROut::Err(y)) = (a, b) {
+                let y = MVal::from_val(y).show();
+                let x = String::from_utf8_lossy(x);
+                if lenient_order && (x.starts_with("invalid path expression") || y.starts_with("\"invalid path expression")) {
+                    return Ok(true);
+                }
+            }
             return Err(format!("output #{i}: jaq {} vs reference {}", a.show(), b.show()));
         }
     }
@@ -47,7 +60,7 @@ pub fn compare(j: &[Out], r: &[ROut], lenient_order: bool) -> Result<bool, Strin
             "jaq yields {} outputs, the reference {} (jaq: [{}] reference: [{}])",
             j.len(),
             r.len(),
-            jq::show_outs(j).chars().take(300).collect::<String>(),
+            jq::show_outs_m(j).chars().take(300).collect::<String>(),
             r.iter().map(|o| o.show()).collect::<Vec<_>>().join(" ").chars().take(300).collect::<String>()
         ));
     }
@@ -55,7 +68,7 @@ pub fn compare(j: &[Out], r: &[ROut], lenient_order: bool) -> Result<bool, Strin
 }
 
 pub fn has_update(text: &str) -> bool {
-    ["|=", "=", "del(", "delpaths", "map_values", "walk(", "with_entries", "pick(", "setpath", "to_entries", "from_entries"].iter().any(|s| text.contains(s))
+    ["|=", "=", "del(", "delpaths", "map_values", "walk(", "with_entries", "pick(", "setpath", "to_entries", "from_entries", "path(", "paths", "path_value"].iter().any(|s| text.contains(s))
 }
 
 pub fn input_pool() -> Vec<MVal> {
@@ -73,12 +86,13 @@ pub fn gen_input(src: &mut Src) -> MVal {
     if src.chance(150) {
         src.pick(&input_pool()).clone()
     } else {
-        gen::gen_val(src, &Cfg { nan: false, depth: 2, width: 3, str_pieces: 2, ..Cfg::default() })
+        gen::gen_val(src, &Cfg { nan: false, depth: 2, width: 3, str_pieces: 2, small_nums: true, ..Cfg::default() })
     }
 }
 
 pub fn check_text(text: &str, classes: &[&'static str], binders: usize, gvar: &MVal, input: &MVal, sample: bool) -> CaseResult {
     let case = || json!({"program": text, "input": input.show(), "$g": gvar.show()});
+    vcore::runner::note_case(|| format!("{} <- {} g={}", text, input.show(), gvar.show()));
     if std::env::var("VERIF_TRACE").is_ok() {
         eprintln!("TRACE {} <- {} g={}", text, input.show(), gvar.show());
     }
@@ -95,23 +109,30 @@ pub fn check_text(text: &str, classes: &[&'static str], binders: usize, gvar: &M
     if let Some(x) = r.iter().find(|o| o.inconclusive()) {
         let c: &'static str = match x {
             ROut::Fuel => "discarded-out-of-fuel",
+            ROut::Unsupported(s) if s.starts_with("known-finding:") => {
+                vcore::refi::EXCLUDED_KNOWN.fetch_add(1, std::sync::atomic::Ordering::Relaxed);
+                "excluded-known-finding"
+            }
             _ => "discarded-outside-reference-domain",
         };
         return Ok(CaseOk::trivial().class(c).desc(if sample { Some(json!({"program": text, "discarded": x.show()})) } else { None }));
     }
-    let f = match jq::compile(text, &["g"]) {
-        Ok(f) => f,
-        Err(e) => return Err(CaseFail::new("well-scoped-program-does-not-compile", e, case())),
+    let j = match jq::run_isolated(text, &[("g", gvar)], input, &[], LIMIT, JAQ_TIMEOUT_MS) {
+        jq::Iso::CompileError(e) => return Err(CaseFail::new("well-scoped-program-does-not-compile", e, case())),
+        // jaq evaluates some single-output sub-filters when it builds its iterators, so it may
+        // diverge in a part the reference never reaches (e.g. the `xs` of a fold whose `init`
+        // fails); divergence is not observable in bounded time: discarded and counted
+        jq::Iso::Timeout => return Ok(CaseOk::trivial().class("discarded-jaq-run-exceeds-time-limit").desc(Some(json!({"program": text, "input": input.show(), "discarded": "jaq run exceeds time limit"})))),
+        jq::Iso::Outs(o) => o,
     };
-    let j = jq::run(&f, vec![gvar.to_val()], input.to_val(), LIMIT);
-    if let Some(Out::Panic(p)) = j.last() {
+    if let Some(OutM::Panic(p)) = j.last() {
         return Err(CaseFail::new(format!("panic:{}", jq::panic_sig(p)), p.clone(), case()));
     }
     let lenient = has_update(text);
     let lenient_used = match compare(&j, &r, lenient) {
         Ok(l) => l,
         Err(msg) => {
-            let sig = if r.iter().any(|o| matches!(o, ROut::Break)) || j.iter().any(|o| matches!(o, Out::Escape(_))) { "escaped-break" } else { "output-differs" };
+            let sig = if r.iter().any(|o| matches!(o, ROut::Break)) || j.iter().any(|o| matches!(o, OutM::Escape(_))) { "escaped-break" } else { "output-differs" };
             return Err(CaseFail::new(sig, msg, case()));
         }
     };
@@ -123,11 +144,11 @@ pub fn check_text(text: &str, classes: &[&'static str], binders: usize, gvar: &M
     }
     ok = ok.class(match j.last() {
         None => "no-output",
-        Some(Out::Err(_)) => "ends-with-error",
+        Some(OutM::Err(_)) => "ends-with-error",
         _ => "values-only",
     });
     if sample {
-        ok = ok.desc(Some(json!({"program": text, "input": input.show(), "outputs": jq::show_outs(&j).chars().take(200).collect::<String>()})));
+        ok = ok.desc(Some(json!({"program": text, "input": input.show(), "outputs": jq::show_outs_m(&j).chars().take(200).collect::<String>()})));
     }
     Ok(ok)
 }
@@ -181,8 +202,8 @@ fn check_manual(ex: &manual::Example, wi: usize, sample: bool) -> CaseResult {
     if ["now", "$ENV", "env", "input", "localtime", "strflocaltime", "$__loc__", "halt", "debug", "stderr", "repl"].iter().any(|k| text.contains(k)) {
         return Ok(CaseOk::trivial().class("environment-dependent"));
     }
-    let j = match jq::eval(&text, &[], Val::Null, 200) {
-        Ok(j) => j,
+    let j: Vec<OutM> = match jq::eval(&text, &[], Val::Null, 200) {
+        Ok(j) => j.iter().map(OutM::from_out).collect(),
         Err(e) => return Err(CaseFail::new("wrapped-example-does-not-compile", e, case())),
     };
     if let Err(msg) = compare(&j, &r, has_update(&text)) {
@@ -190,7 +211,7 @@ fn check_manual(ex: &manual::Example, wi: usize, sample: bool) -> CaseResult {
     }
     let mut ok = CaseOk::new(true, fnv_str(&[&text]));
     if sample {
-        ok = ok.desc(Some(json!({"program": text, "outputs": jq::show_outs(&j).chars().take(160).collect::<String>()})));
+        ok = ok.desc(Some(json!({"program": text, "outputs": jq::show_outs_m(&j).chars().take(160).collect::<String>()})));
     }
     Ok(ok)
 }
@@ -203,6 +224,24 @@ pub fn run(mut rep: Report) -> ! {
     );
     rep.assume("REF shares lexer/parser and value-level primitives (Val arithmetic, indexing, ordering, natives whose arguments are all values) with jaq; programs on which REF runs out of fuel or leaves its documented domain (non-integer counts for limit/skip, module calls) are discarded and counted, never reported");
     rep.assume("errors raised by the left operand of `//` propagate (the manual is silent; observed behaviour); after a deleting update objects are compared with == (key order unspecified)");
+    vcore::refi::KNOWN_SINGLE_INTERP.store(rep.is_known(SIG_SINGLE_INTERP), std::sync::atomic::Ordering::SeqCst);
+    // demonstrations of the listed findings (strict: REF models the manual)
+    rep.fixed("known-findings", KNOWN_DEMOS.len(), |i| {
+        let (sig, prog, input) = KNOWN_DEMOS[i];
+        vcore::refi::KNOWN_SINGLE_INTERP.store(false, std::sync::atomic::Ordering::SeqCst);
+        let inp = MVal::from_val(&jaq_json::read::parse_single(input.as_bytes()).unwrap());
+        let r = check_text(prog, &[], 2, &MVal::Null, &inp, true);
+        vcore::refi::KNOWN_SINGLE_INTERP.store(true, std::sync::atomic::Ordering::SeqCst);
+        match r {
+            Err(mut f) => {
+                f.sig = sig.to_string();
+                Err(f)
+            }
+            // the finding no longer reproduces: fine (e.g. repaired)
+            Ok(ok) => Ok(ok.class("listed-finding-does-not-reproduce")),
+        }
+    });
+    vcore::refi::KNOWN_SINGLE_INTERP.store(rep.is_known(SIG_SINGLE_INTERP), std::sync::atomic::Ordering::SeqCst);
     let exs = manual::examples();
     rep.extra("manual_examples", json!(exs.len()));
     let nw = WRAPPERS.len() as u64;
@@ -216,5 +255,7 @@ pub fn run(mut rep: Report) -> ! {
     if !rep.quick() {
         rep.random("generated-large", 500_000, 400, |src| check_generated(src, 7));
     }
+    rep.extra("excluded_known_in_reference", json!(vcore::refi::EXCLUDED_KNOWN.load(std::sync::atomic::Ordering::Relaxed)));
+    rep.extra("jaq_runs_abandoned_after_time_limit", json!(jq::abandoned_runs()));
     rep.finish()
 }
